@@ -4,6 +4,7 @@ package parser
 
 import (
 	"regexp"
+	"strings"
 
 	"github.com/lmorg/murex/utils/ansi/codes"
 )
@@ -352,7 +353,9 @@ func Parse(block []rune, pos int) (pt ParsedTokens, syntaxHighlighted string) {
 			case pt.QuoteSingle, pt.QuoteDouble, pt.QuoteBrace > 0:
 				*pt.pop += ` `
 				syntaxHighlighted += string(block[i])
-			case i > 0 && (block[i-1] == '-' || block[i-1] == '='):
+			case i > 0 && (block[i-1] == '-' || block[i-1] == '=') &&
+				// an escaped `-` or `=` is followed by a colour code and isn't a pipe token
+				strings.HasSuffix(syntaxHighlighted, string(block[i-1])):
 				if pos != 0 && pt.Loc >= pos {
 					return
 				}
